@@ -190,7 +190,7 @@ def sweep_all_lengths(ctx, R, LP, rng, tier):
 
 
 def run(tier, seed):
-    ctx = core.Ctx(PROP, tier, seed, "proof", ["C10"])
+    ctx = core.Ctx(PROP, tier, seed, "proof", ["C10", "C10b"])
     ctx.axioms = core.audit(ctx.modules)
     import pyqsp.response as R
     import pyqsp.LPoly as LP
